@@ -9,4 +9,8 @@ Next == /\ verdict = "pending" /\ UNCHANGED k
         /\ LET e == KAT[k]  d == ChachaXor(e.key, e.nonce, e.ctr, e.rounds, e.m) IN
            /\ verdict' = IF d = e.out THEN "ok" ELSE "bad"
            /\ PrintT(ToJson([k |-> k, verdict |-> verdict', got |-> d]))
+\* segment law used by C06 for long messages: the output from byte 64c on is the rest of the message xor the keystream from block ctr0 + c
+ASSUME LET key == [q \in 1..32 |-> (q * 7) % 256]  nonce == <<1, 2, 3, 4, 5, 6, 7, 8>>  m == [q \in 1..150 |-> (q * 11) % 256]
+           c0 == <<65535, 65535, 0, 0>>                                   \* the carry into the next limb lies inside the message
+       IN \A r \in {8, 20} : ChachaXor(key, nonce, c0, r, m) = ChachaXor(key, nonce, c0, r, SubSeq(m, 1, 64)) \o ChachaXor(key, nonce, WAddNat(c0, 1), r, SubSeq(m, 65, 150))
 ====
